@@ -473,15 +473,48 @@ func AsResult(v ssa.Value) (*ssa.Call, int, bool) {
 // store of this call's result, or be dominated by that store with no other store in between
 // (approximated: same block, or the loaded cell's reaching store is unique along the dominator chain).
 func (p *Prog) SuccessEdges(fn *ssa.Function, calls []ssa.CallInstruction, errIdx int) (succ, fail EdgeSet) {
+	return p.SuccessEdgesSib(fn, calls, nil, errIdx)
+}
+
+// SuccessEdgesSib is SuccessEdges where the tested error may also be a phi over the error results of `calls` and of the
+// sibling calls `sibs` (a loop written `for c, err := f(); …; c, err = f()`): the phi is the error of whichever of them ran
+// last, so its nil edge is a success edge for the value phi built over the same calls. At least one edge must come from `calls`.
+func (p *Prog) SuccessEdgesSib(fn *ssa.Function, calls, sibs []ssa.CallInstruction, errIdx int) (succ, fail EdgeSet) {
 	isCall := map[ssa.Value]bool{}
 	for _, c := range calls {
 		if v, ok := c.(*ssa.Call); ok {
 			isCall[v] = true
 		}
 	}
-	match := func(x ssa.Value) bool {
+	isSib := map[ssa.Value]bool{}
+	for _, c := range sibs {
+		if v, ok := c.(*ssa.Call); ok {
+			isSib[v] = true
+		}
+	}
+	direct := func(x ssa.Value, set map[ssa.Value]bool) bool {
 		c, i, ok := AsResult(x)
-		return ok && isCall[c] && (errIdx < 0 || i == errIdx || (errIdx == 0 && c.Call.Signature().Results().Len() == 1))
+		return ok && set[c] && (errIdx < 0 || i == errIdx || (errIdx == 0 && c.Call.Signature().Results().Len() == 1))
+	}
+	match := func(x ssa.Value) bool {
+		if direct(x, isCall) {
+			return true
+		}
+		ph, isPhi := x.(*ssa.Phi)
+		if !isPhi {
+			return false
+		}
+		own := false
+		for _, e := range ph.Edges {
+			switch {
+			case direct(e, isCall):
+				own = true
+			case direct(e, isSib):
+			default:
+				return false
+			}
+		}
+		return own
 	}
 	succ, fail = EdgeSet{}, EdgeSet{}
 	for _, f := range []*ssa.Function{fn} {
